@@ -152,14 +152,32 @@ def consumed_keys():
                     return _joined(n)
                 return None
 
+            # loop variables that range over literal strings: for a, b in (("born", "born_effective_charge"), ...)
+            ranges = {}
+            for lp in ast.walk(fn):
+                if isinstance(lp, (ast.For, ast.comprehension)) and isinstance(lp.iter, (ast.Tuple, ast.List)):
+                    tg = lp.target.elts if isinstance(lp.target, ast.Tuple) else [lp.target]
+                    for el in lp.iter.elts:
+                        vals = el.elts if isinstance(el, (ast.Tuple, ast.List)) else [el]
+                        if len(vals) == len(tg):
+                            for t_, v_ in zip(tg, vals):
+                                if isinstance(t_, ast.Name) and isinstance(v_, ast.Constant) and isinstance(v_.value, str):
+                                    ranges.setdefault(t_.id, set()).add(v_.value)
+
+            def keys_of(n):
+                k_ = key_of(n)
+                if k_:
+                    return [k_]
+                if isinstance(n, ast.Name) and n.id in ranges:
+                    return sorted(ranges[n.id])
+                return []
+
             for n in ast.walk(fn):
                 if isinstance(n, ast.Subscript) and base_tainted(n.value):
-                    k = key_of(n.slice)
-                    if k:
+                    for k in keys_of(n.slice):
                         out.setdefault(k, n)
                 if isinstance(n, ast.Compare) and isinstance(n.ops[0], (ast.In, ast.NotIn)) and base_tainted(n.comparators[0]):
-                    k = key_of(n.left)
-                    if k:
+                    for k in keys_of(n.left):
                         out.setdefault(k, n)
                 if isinstance(n, ast.If) and isinstance(n.test, ast.Compare) and isinstance(n.test.ops[0], ast.In) and base_tainted(n.test.comparators[0]):
                     tk = key_of(n.test.left)
@@ -181,6 +199,7 @@ def run(rep: core.Report):
     _r16k(rep)
     _r16l(rep)
     _r16m(rep)
+    _r16n(rep)
     _r16j(rep)
     from rules import c03
 
@@ -661,12 +680,16 @@ def _r16g(rep):
 
 
 
-def _r16j(rep):
+def nested_mutable_of(decl):
+    return isinstance(decl.value, (ast.Dict, ast.List)) and any(isinstance(v_, (ast.Dict, ast.List, ast.Set)) for v_ in (decl.value.values if isinstance(decl.value, ast.Dict) else decl.value.elts))
+
+
+def _r16j(rep, rid="R16j", files=None):
     """Two writes in one process are independent: class-level mutable defaults are never changed through an instance."""
-    rep.rule("R16j", "class-level dictionaries and lists that serve as defaults (e.g. the dumper's default settings) are copied before an instance changes them: no method mutates `self.<class attribute>` in place, directly or through a local alias bound without .copy() / dict() / list() / deepcopy, so that the settings of one save() cannot leak into the next one", 1)
+    rep.rule(rid, "class-level dictionaries and lists that serve as defaults (e.g. the dumper's default settings) are copied before an instance changes them: no method mutates `self.<class attribute>` in place, directly or through a local alias bound without .copy() / dict() / list() / deepcopy, so that the settings of one save() cannot leak into the next one", 1)
     MUT = {"update", "append", "extend", "pop", "popitem", "clear", "setdefault", "insert", "remove", "sort", "reverse"}
     n_inst = 0
-    for rel in (YML, API, "phonopy/cui/load.py", LOADH, "phonopy/cui/settings.py", FIO):
+    for rel in (files or (YML, API, "phonopy/cui/load.py", LOADH, "phonopy/cui/settings.py", FIO)):
         tree = core.parse(rel)
         for cls in [c for c in ast.walk(tree) if isinstance(c, ast.ClassDef)]:
             shared = {}
@@ -681,17 +704,41 @@ def _r16j(rep):
             for name, decl in shared.items():
                 bad = []
                 uses = 0
+                shallow = {}  # attributes / locals bound to a shallow copy of the class-level object (any method)
+                # an instance attribute of the same name bound to a copy in __init__ shadows the class attribute:
+                # self.<name> then is the instance's own object in every method
+                shadowed = False
+                init_ = next((x for x in cls.body if isinstance(x, ast.FunctionDef) and x.name == "__init__"), None)
+                for st in (init_.body if init_ is not None else []):
+                    if isinstance(st, ast.Assign) and core.src(st.targets[0]) == f"self.{name}" and isinstance(st.value, ast.Call):
+                        v = st.value
+                        inner = v.func.value if isinstance(v.func, ast.Attribute) and v.func.attr == "copy" and not v.args else (v.args[0] if core.src(v.func) in ("dict", "list", "copy.copy", "copy.deepcopy") and len(v.args) == 1 else None)
+                        if inner is not None and isinstance(inner, ast.Attribute) and inner.attr == name and core.src(inner.value) in ("self", "cls", cls.name, "type(self)"):
+                            shadowed = True
+                            if core.src(v.func) != "copy.deepcopy" and nested_mutable_of(decl):
+                                shallow[f"self.{name}"] = st
+                nested_mutable = nested_mutable_of(decl)
                 for m in [x for x in ast.walk(cls) if isinstance(x, ast.FunctionDef)]:
                     aliases = set()
                     for st in sorted((x for x in ast.walk(m) if isinstance(x, ast.Assign)), key=lambda x: x.lineno):
                         v = st.value
                         if isinstance(v, ast.Attribute) and v.attr == name and core.src(v.value) in ("self", "cls", cls.name) and isinstance(st.targets[0], (ast.Name, ast.Attribute)):
                             aliases.add(core.src(st.targets[0]))
+                        # a shallow copy shares the mutable values of the class-level dictionary / list
+                        inner = None
+                        if isinstance(v, ast.Call) and isinstance(v.func, ast.Attribute) and v.func.attr == "copy" and not v.args:
+                            inner = v.func.value
+                        elif isinstance(v, ast.Call) and core.src(v.func) in ("dict", "list", "copy.copy") and len(v.args) == 1:
+                            inner = v.args[0]
+                        if inner is not None and isinstance(inner, ast.Attribute) and inner.attr == name and core.src(inner.value) in ("self", "cls", cls.name) and nested_mutable and isinstance(st.targets[0], (ast.Name, ast.Attribute)):
+                            shallow[core.src(st.targets[0])] = st
                     for x in ast.walk(m):
                         if isinstance(x, ast.Attribute) and x.attr == name and core.src(x.value) in ("self", "cls", cls.name):
                             uses += 1
 
                         def is_shared(e):
+                            if shadowed and isinstance(e, ast.Attribute) and e.attr == name and core.src(e.value) == "self":
+                                return False
                             return (isinstance(e, ast.Attribute) and e.attr == name and core.src(e.value) in ("self", "cls", cls.name)) or core.src(e) in aliases
 
                         if isinstance(x, ast.Call) and isinstance(x.func, ast.Attribute) and x.func.attr in MUT and is_shared(x.func.value):
@@ -702,14 +749,69 @@ def _r16j(rep):
                                 bad.append(x)
                             if isinstance(x, ast.AugAssign) and is_shared(tg):
                                 bad.append(x)
+                # writes through a shallow copy into one of the nested mutable values: x[key][i] = v, x[key].append(v)
+                for m in [x for x in ast.walk(cls) if isinstance(x, ast.FunctionDef)] if shallow else []:
+                    for x in ast.walk(m):
+                        tg = (x.targets[0] if isinstance(x, ast.Assign) else x.target) if isinstance(x, (ast.Assign, ast.AugAssign)) else None
+                        if isinstance(tg, ast.Subscript) and isinstance(tg.value, ast.Subscript) and core.src(tg.value.value) in shallow:
+                            bad.append(x)
+                        if isinstance(x, ast.Call) and isinstance(x.func, ast.Attribute) and x.func.attr in MUT and isinstance(x.func.value, ast.Subscript) and core.src(x.func.value.value) in shallow:
+                            bad.append(x)
                 if not uses:
                     continue
                 n_inst += 1
-                rep.instance("R16j", rel, f"{cls.name}.{name}", f"class-level {type(decl.value).__name__.lower()} read by {uses} instance expression(s)", not bad,
+                rep.instance(rid, rel, f"{cls.name}.{name}", f"class-level {type(decl.value).__name__.lower()} read by {uses} instance expression(s)", not bad,
                              f"'{core.norm(core.src(bad[0]), 70) if bad else ''}' changes the class-level object {cls.name}.{name} in place (directly or through an alias bound without a copy): every later instance starts from the changed defaults, so a save() with reduced settings makes the next default save() omit forces / NAC parameters and load() cannot reproduce the state", line=(bad[0].lineno if bad else decl.lineno))
     if not n_inst:
-        raise AnalysisError("R16j: no class-level mutable default found (PhonopyYamlDumperBase._default_dumper_settings on the confirmed tree)")
+        if files is None:
+            raise AnalysisError("R16j: no class-level mutable default found (PhonopyYamlDumperBase._default_dumper_settings on the confirmed tree)")
+        rep.instance(rid, files[0], "<interfaces>", "no class-level mutable default is changed through an instance (none is read by instances)", True, "", nontrivial=False)
 
+
+
+def _r16n(rep):
+    """The NAC method survives save() / load(): what the dumper writes, normalised by the loader, is what the dispatch tests."""
+    import re as _re
+
+    rep.rule("R16n", "NAC method through phonopy.yaml: every method string the dumper can write, after the normalisation the loader applies, equals one of the literals the dynamical-matrix dispatch compares with (case-sensitive ==): 'Wang' written, lower-cased on reading, tested as 'wang'; without the normalisation a calculation saved with the Wang method reloads as Gonze-Lee", 1)
+    YML = "phonopy/interface/phonopy_yaml.py"
+    DMF = "phonopy/harmonic/dynamical_matrix.py"
+    ytree, dtree = core.parse(YML), core.parse(DMF)
+    # dispatch vocabulary
+    vocab = set()
+    for c in ast.walk(dtree):
+        if isinstance(c, ast.Compare) and len(c.ops) == 1 and isinstance(c.ops[0], (ast.Eq, ast.NotEq)) and "method" in core.src(c.left) and isinstance(c.comparators[0], ast.Constant) and isinstance(c.comparators[0].value, str):
+            vocab.add(c.comparators[0].value)
+    if not vocab:
+        raise AnalysisError("R16n: the dynamical-matrix dispatch no longer compares the NAC method with a literal")
+    vocab |= {"gonze"} if "wang" in vocab else set()
+    # what the dumper writes
+    emitted, transform = set(), None
+    for x in ast.walk(ytree):
+        if isinstance(x, ast.Constant) and isinstance(x.value, str):
+            emitted |= set(_re.findall(r'method: "?(\w+)"?', x.value)) - {"method"}
+        if isinstance(x, ast.JoinedStr) and any(isinstance(v, ast.Constant) and "method:" in str(v.value) for v in x.values):
+            for v in x.values:
+                if isinstance(v, ast.FormattedValue):
+                    calls = [c.func.attr for c in ast.walk(v.value) if isinstance(c, ast.Call) and isinstance(c.func, ast.Attribute)]
+                    transform = next((a for a in calls if a in ("capitalize", "upper", "lower", "title")), "identity")
+    if transform is not None:
+        emitted |= {getattr(v_, transform)() if transform != "identity" else v_ for v_ in vocab}
+    if not emitted:
+        raise AnalysisError("R16n: the dumper no longer writes a 'method:' line for the NAC parameters")
+    # the loader's normalisation
+    stores = [st for st in ast.walk(ytree) if isinstance(st, ast.Assign) and isinstance(st.targets[0], ast.Subscript) and isinstance(st.targets[0].slice, ast.Constant) and st.targets[0].slice.value == "method"]
+    if not stores:
+        raise AnalysisError("R16n: the loader no longer stores nac_params['method']")
+    for st in stores:
+        fn_ = core.enclosing_function(st)
+        v = core.resolve_name(fn_, st.value) if fn_ is not None else st.value
+        calls = [c.func.attr for c in ast.walk(v) if isinstance(c, ast.Call) and isinstance(c.func, ast.Attribute)]
+        norm = next((a for a in calls if a in ("lower", "upper", "capitalize", "casefold")), "identity")
+        read = {(getattr(e_, norm)() if norm != "identity" else e_) for e_ in emitted}
+        lost = sorted(e_ for e_ in emitted if e_.lower() in vocab and ((getattr(e_, norm)() if norm != "identity" else e_) not in vocab))
+        rep.instance("R16n", YML, core.qualname_of(st), f"written {sorted(emitted)} -> read with {norm}() as {sorted(read)}; dispatch tests {sorted(vocab)}", not lost,
+                     f"the dumper writes {lost} and the loader stores it {'unchanged' if norm == 'identity' else 'through ' + norm + '()'}; the dispatch compares with {sorted(vocab)} case-sensitively, so a calculation saved with that method reloads with another one", line=st.lineno)
 
 
 def _r16m(rep):
@@ -861,6 +963,7 @@ def selftest():
     b = lambda name, file, old, new, rule, expect="", **kw: V.append(dict(name=name, kind="break", file=file, old=old, new=new, rule=rule, expect=expect, **kw))
     n = lambda name, file, old, new, **kw: V.append(dict(name=name, kind="neutral", file=file, old=old, new=new, **kw))
     b("hdf5 force constants written in append mode", "phonopy/file_IO.py", "    with h5py.File(filename, \"w\") as w:\n        w.create_dataset(\n            \"force_constants\"", "    with h5py.File(filename, \"a\") as w:\n        w.create_dataset(\n            \"force_constants\"", "R16m", "write_force_constants_to_hdf5")
+    b("NAC method read from yaml without normalisation", "phonopy/interface/phonopy_yaml.py", "            nac_params[\"method\"] = nac_yaml[\"method\"].lower()", "            nac_params[\"method\"] = nac_yaml[\"method\"]", "R16n", "_parse_nac")
     YML_ = "phonopy/interface/phonopy_yaml.py"
     b("dataset section only under the displacements setting", YML_, "        lines = []\n        if (\n            self._dumper_settings[\"force_sets\"]\n            or self._dumper_settings[\"displacements\"]\n        ):\n            disp_yaml_lines = self._displacements_yaml_lines(\n                with_forces=self._dumper_settings[\"force_sets\"]\n            )\n            lines += disp_yaml_lines\n        return lines\n", "        if not self._dumper_settings[\"displacements\"]:\n            return []\n        return self._displacements_yaml_lines(\n            with_forces=self._dumper_settings[\"force_sets\"]\n        )\n", "R16l", "_dataset_yaml_lines")
     n("dataset section with early return on both settings off", YML_, "        lines = []\n        if (\n            self._dumper_settings[\"force_sets\"]\n            or self._dumper_settings[\"displacements\"]\n        ):\n            disp_yaml_lines = self._displacements_yaml_lines(\n                with_forces=self._dumper_settings[\"force_sets\"]\n            )\n            lines += disp_yaml_lines\n        return lines\n", "        with_forces = self._dumper_settings[\"force_sets\"]\n        if not (with_forces or self._dumper_settings[\"displacements\"]):\n            return []\n        return self._displacements_yaml_lines(with_forces=with_forces)\n")
